@@ -104,6 +104,22 @@ def queries(pool, npos, rng, full):
         add("k = ? and k < ?", [pool[p], pool[p]], None)
         add("k = ? and k >= ?", [pool[p], pool[p]], None)
         add("k = ? and k = ?", [pool[p], pool[(p + 1) % npos]], None)
+    # two bounds on the same side with DIFFERENT values, every strictness combination, looser-first and tighter-first;
+    # equality / IN combined with a looser bound
+    for _ in range(npos if full else 3):
+        p, q = sorted(rng.sample(range(npos), 2))
+        for (o1, o2) in (("<", "<="), ("<=", "<"), ("<", "<"), ("<=", "<=")):
+            add("k %s ? and k %s ?" % (o1, o2), [pool[q], pool[p]], rng.choice(["asc", "desc", None]))
+            if full or rng.random() < 0.5:
+                add("k %s ? and k %s ?" % (o1, o2), [pool[p], pool[q]], None, agg="count")
+        for (o1, o2) in ((">", ">="), (">=", ">"), (">", ">"), (">=", ">=")):
+            add("k %s ? and k %s ?" % (o1, o2), [pool[p], pool[q]], rng.choice(["asc", "desc", None]))
+            if full or rng.random() < 0.5:
+                add("k %s ? and k %s ?" % (o1, o2), [pool[q], pool[p]], None, agg="count")
+        add("k > ? and k = ?", [pool[p], pool[q]], None)
+        add("k < ? and k = ?", [pool[q], pool[p]], None)
+        add("k < ? and k in (?, ?)", [pool[q], pool[p], pool[q]], "asc")
+        add("k >= ? and k between ? and ?", [pool[p], pool[p], pool[q]], "desc")
     add("k > NULL", [], "asc")
     add("k <= NULL", [], "desc")
     add(None, [], None)
